@@ -609,3 +609,56 @@ func argConsts(ci ssa.CallInstruction) string {
 	}
 	return strings.Join(out, ",")
 }
+
+func init() {
+	register(&Rule{
+		ID: "outlier.recycler-created-once", Props: []string{"C20"}, Floor: 1,
+		Doc: "a resource's Recycler (whose status map records which queued nodes have recovered, and which the armed recycle timers consult when they fire) is created once and then kept: every store into the recyclers map happens only where a lookup of that very resource found no recycler. Replacing the recycler of a resource while timers of the old one are armed sends later recover() calls to the new object; the old timers still see 'not recovered' and delete the breaker of a healthy node",
+		Run: func(c *Ctx) {
+			g := c.P.Global("core/outlier.recyclers")
+			if g == nil {
+				c.AnchorLost("core/outlier.recyclers")
+				return
+			}
+			n := 0
+			for _, f := range c.P.FuncsIn(modPath + "/core/outlier") {
+				if isTestOrExample(f) {
+					continue
+				}
+				eachInstr(f, func(ins ssa.Instruction) {
+					mu, ok := ins.(*ssa.MapUpdate)
+					if !ok {
+						return
+					}
+					if ld, ok := mu.Map.(*ssa.UnOp); !ok || ld.X != ssa.Value(g) {
+						return
+					}
+					n++
+					absent := false
+					for _, ft := range condFacts(mu.Block()) {
+						var lk *ssa.Lookup
+						if ex, ok := ft.Cond.(*ssa.Extract); ok && ex.Index == 1 && !ft.Truth {
+							lk, _ = ex.Tuple.(*ssa.Lookup)
+						} else if b, ok := ft.Cond.(*ssa.BinOp); ok && ((b.Op == token.EQL && ft.Truth) || (b.Op == token.NEQ && !ft.Truth)) && (isNilConst(b.X) || isNilConst(b.Y)) {
+							for _, side := range []ssa.Value{b.X, b.Y} {
+								if l, ok := resolve(side).(*ssa.Lookup); ok {
+									lk = l
+								}
+							}
+						}
+						if lk == nil {
+							continue
+						}
+						if ld, ok := lk.X.(*ssa.UnOp); ok && ld.X == ssa.Value(g) && accessPath(lk.Index) == accessPath(mu.Key) {
+							absent = true
+						}
+					}
+					c.Check(absent, fmt.Sprintf("%s / store recyclers#%d", fnKey(f), n), mu.Pos(), "a recycler is stored only where recyclers[%s] was found absent", accessPath(mu.Key))
+				})
+			}
+			if n == 0 {
+				c.Violate("core/outlier / recyclers", token.NoPos, "no recycler is ever stored")
+			}
+		},
+	})
+}
